@@ -12,13 +12,14 @@ dest=$(grep -m1 -oE '(vgirpc|conformance|examples)[A-Za-z0-9_/.-]*_test\.go' "$s
 [ -z "$dest" ] && { echo "cannot find demo destination in header"; cleanup; exit 2; }
 pkgdir=$(dirname "$dest")
 moddir=$wt; case "$pkgdir" in vgirpc/s3*|vgirpc/otel*|vgirpc/gcs*|vgirpc/jwtauth*|vgirpc/sentry*) moddir=$wt/$(echo $pkgdir | cut -d/ -f1-2); pkgrel=./$(echo $pkgdir | cut -d/ -f3-);; *) pkgrel=./$pkgdir;; esac
-run=$(grep -oE "\-run '?[A-Za-z0-9_|^$]+'?" "$src/meta.json" | head -1 | sed "s/-run //; s/'//g")
+run=$(grep -oE "\-run '?\^?Test[A-Za-z0-9_|^$]+'?" "$src/meta.json" | head -1 | sed "s/-run //; s/'//g")
 [ -z "$run" ] && run=Seed
+tags=$(grep -oE "\-tags [A-Za-z0-9_,]+" "$src/meta.json" | head -1)
 cp "$src/demo_test.go" "$wt/$dest"
 log=/tmp/confirm-$prop-$k-$$.log
-( cd "$moddir" && go test -vet=off -count=1 -run "$run" "$pkgrel" ) > $log 2>&1; orig=$?
+( cd "$moddir" && go test -vet=off -count=1 $tags -run "$run" "$pkgrel" ) > $log 2>&1; orig=$?
 git -C "$wt" apply "$src/patch.diff" || { echo "PATCH DOES NOT APPLY on HEAD"; cleanup; exit 3; }
-( cd "$moddir" && go test -vet=off -count=1 -run "$run" "$pkgrel" ) >> $log 2>&1; mut=$?
+( cd "$moddir" && go test -vet=off -count=1 $tags -run "$run" "$pkgrel" ) >> $log 2>&1; mut=$?
 rm "$wt/$dest"
 ( cd "$moddir" && go build ./... && go test -vet=off -count=1 "$pkgrel" ) >> $log 2>&1; suite=$?
 echo "demo on original rc=$orig (want 0); demo on patched rc=$mut (want !=0); existing suite on patched rc=$suite (want 0)"
